@@ -224,3 +224,19 @@ def install_loop_rule(it):
         return run
 
     it.loop_hook = loop_hook
+
+
+class HavocLocals(LoopSpec):
+    """while-loop whose body only re-assigns local scalars by pure expressions (e.g. drawing another random
+    label): weakest invariant True; after the loop only the negated guard is known. `fresh` maps a local
+    name to a function producing a fresh symbolic value."""
+
+    def __init__(self, fresh):
+        self.fresh = fresh
+
+    def havoc(self, it, env):
+        for name, mk in self.fresh.items():
+            env[name] = mk(it)
+
+    def inv(self, it, env, k):
+        return []
